@@ -1,6 +1,8 @@
 import OSProofs.Props.C11
 import OSProofs.Props.C11b
 import OSProofs.CodeShaped
+import OSProofs.Props.FL2
+import OSProofs.MonoArithInst
 #print axioms OS.C11_ranks_length
 #print axioms OS.C11_rankData_range
 #print axioms OS.C11_rankData_strict
@@ -30,3 +32,19 @@ import OSProofs.CodeShaped
 #print axioms OS.C11_two_team_sum
 #print axioms OS.C11_two_team_sum_gt_one
 #print axioms OS.rankDataCode_eq
+#print axioms OS.MonoArith.real
+#print axioms OS.MonoArith.rn
+#print axioms OS.truncRounding
+#print axioms OS.truncRounding_lossy
+#print axioms OS.truncRounding_ne_id
+#print axioms OS.MonoArith.fl1_gammaNonneg_of_tag
+#print axioms OS.FL_C11_probs_range
+#print axioms OS.FL_C11_probs_range_all
+#print axioms OS.FL_C11_probs_length
+#print axioms OS.FL_C11_length
+#print axioms OS.FL_C11_paired_probs_range
+#print axioms OS.FL_C11_ranks_range
+#print axioms OS.FL_C11_ranks_strict
+#print axioms OS.FL_C11_ranks_tie
+#print axioms OS.FL_C11_ranks_lt_iff
+#print axioms OS.FL_C11_ranks_max_one
